@@ -269,7 +269,15 @@ fn run_names(c: &Names, obs: &mut Obs) -> CheckResult {
         names.sort();
         names.windows(2).any(|w| w[0] == w[1])
     };
-    let should_decode = names_ok && order_ok && !repeated;
+    // Acceptance is demanded only where the statement and RFC 9286 leave no
+    // room: nextUpdate strictly later than thisUpdate (4.2.1 "MUST be later";
+    // equal times are neither required nor forbidden to decode — if they do,
+    // "this-update is not after next-update" holds), and names no longer than
+    // 255 octets (no length is promised to be accepted beyond what file
+    // systems carry; what is accepted is still checked in full).
+    let later = c.this_update < c.next_update;
+    let long_name = c.entries.iter().any(|e| e.name.len() > 255);
+    let should_decode = names_ok && later && !repeated && !long_name;
     let all_generalized = this.is_generalized() && next.is_generalized();
 
     obs.label(if names_ok { "names-valid" } else { "names-hostile" });
@@ -396,8 +404,10 @@ pub struct NameChunk {
 fn enum_manifest(names: &[&[u8]]) -> Vec<u8> {
     let list: Vec<MftEntry> =
         names.iter().map(|n| MftEntry { name: n.to_vec(), hash: keys::sha256(n).to_vec(), unused: 0 }).collect();
+    // nextUpdate a day after thisUpdate (RFC 9286 4.2.1 wants it later)
     let t = TimeEnc::new(c02::ymd(2026, 1, 1), true);
-    wrap(&der::manifest_content(&[1], t, t, &list, false))
+    let n = TimeEnc::new(c02::ymd(2026, 1, 2), true);
+    wrap(&der::manifest_content(&[1], t, n, &list, false))
 }
 
 fn run_name_chunk(c: &NameChunk, obs: &mut Obs) -> CheckResult {
